@@ -133,6 +133,11 @@ func TestVerifC04Streams(t *testing.T) {
 		}
 		for _, a := range order {
 			runtime.GC()
+			// at rest the two hosts hold no stream: wait for background exchanges (identify
+			// push, the previous attempt's remote handler) to finish before taking the baseline
+			if !c04Settle(3*time.Second, func() bool { return c04Stat(rm1).streams == 0 && c04Stat(rm2).streams == 0 }) {
+				out.Cover("streams.baseline_not_at_rest")
+			}
 			baseG := runtime.NumGoroutine()
 			b1, b2 := c04Stat(rm1), c04Stat(rm2)
 			ctx, cancel := context.WithTimeout(context.Background(), 2*time.Second)
